@@ -19,7 +19,7 @@ func symLeaves(kind, n int, validUTF bool) (string, int) {
 	}
 	i := 42
 	switch kind {
-	case vkInt, vkInt64Neg, vkMyInt, vkPubStruct, vkSliceInt, vkArrInt, vkMapStrInt, vkSafeInt, vkRegInt, vkUintptr, vkUint64Big:
+	case vkInt, vkInt64Neg, vkMyInt, vkPubStruct, vkSliceInt, vkArrInt, vkMapStrInt, vkSafeInt, vkRegInt, vkUintptr, vkUint64Big, vkEnumStringer:
 		i = vInt()
 		vAssume(i >= 0)
 		vAssume(i <= 9999)
@@ -123,7 +123,36 @@ func H_c04p(p []int) {
 	vAssert(!r.panicked || f.panicked, "C11/no-panic-unless-fmt-panics")
 }
 
+var c04mFormats = []string{"%d %v", "%v|%d|%s", "%[2]v %[1]d", "%s %s %s %s", "%x %q", "%v"}
+
+// H_c04m: several directives and operands in one call: state left by
+// one directive (diagnostics, flags) must not affect the next.
+// p = [kind1, kind2, format, n]
+func H_c04m(p []int) {
+	k1, k2, fi, n := p[0], p[1], p[2], p[3]
+	d := c04mFormats[fi]
+	if addrLeak(k1, d) || addrLeak(k2, d) {
+		return
+	}
+	s, i := symLeaves(-1, n, true)
+	vSite(fmt.Sprintf("multi kinds=%d,%d format=%q", k1, k2, d))
+	r := catchRedact(func() redact.RedactableString {
+		return redact.Sprintf(d, mkValue(k1, s, i), mkValue(k2, s, i), mkValue(k1, s, 7))
+	})
+	f := catchFmt(func() string { return fmt.Sprintf(d, mkValue(k1, s, i), mkValue(k2, s, i), mkValue(k1, s, 7)) })
+	vObserve("redact", []byte(r.out))
+	vAssert(r.panicked == f.panicked, "C04/panic-equivalence")
+	if !r.panicked && !f.panicked {
+		vAssert(bytesEq(strip([]byte(r.out)), esc([]byte(f.out))), "C04/strip-eq-fmt")
+		wf, ls := wfls([]byte(r.out))
+		vAssert(wf, "C01/wf")
+		vAssert(ls, "C03/lineSafe")
+	}
+	vAssert(!r.panicked || f.panicked, "C11/no-panic-unless-fmt-panics")
+}
+
 func init() {
+	Harnesses["H_c04m"] = H_c04m
 	Harnesses["H_c04"] = H_c04
 	Harnesses["H_c04p"] = H_c04p
 }
